@@ -281,6 +281,9 @@ func runC10(r *core.R) {
 			return
 		}
 		r.Nontrivial(1)
+		if j.k%97 == 0 && j.di%5 == 0 {
+			r.Sample(map[string]any{"document": d.name, "cancel_at_poll": j.k, "context_error": j.cerr.Error(), "returned_error": trimTo(fmt.Sprint(run.err), 160), "polls_after": run.failedPolls - 1})
+		}
 		switch {
 		case run.err == nil:
 			r.Violation("cancel-ignored:"+d.name, fmt.Sprintf("%s: poll %d returned %v but the read returned a document and no error", d.name, j.k, j.cerr), rep())
